@@ -43,6 +43,10 @@ SeqSetS = SELM.SeqSetS
 SEL_MBX = VRef(z3.Const('the-selected-mailbox', MbxR.z3()), MbxR)
 
 
+class StorageFailure(Exception):
+    """whatever a backend storage call may raise (a parse failure of the content, an I/O error, a cancellation)"""
+
+
 class Policy:
     """which property's obligations a set of session contracts generates"""
 
@@ -83,6 +87,8 @@ def ghost_init(st, sc):
     st.ghost['effects'] = VBool(False)
     st.ghost['synced'] = VBool(False)
     st.ghost['last_recent_arg'] = VBool(False)
+    st.ghost['stored'] = ListS(INT).empty()        # uids this command has stored so far (APPEND)
+    st.ghost['undone'] = ListS(INT).empty()        # uids handed to delete() by the command's own rollback
 
 
 # ---- the abstract mailbox set
@@ -158,9 +164,18 @@ def _mbx(kind, ret=None, site=None):
             ex.st.ghost['last_recent_arg'] = kw.get('recent', VBool(False))
             return OptS(INT).fresh('dest_uid')
         if kind == 'append':
+            if ex.c.policy.prop == 'C14' and ex.choose(2) == 1:
+                # ASSUMED: a storage call that raises has had no effect of its own
+                raise PyRaise(StorageFailure)
             _effect(ex, frame, 'insert', base, 'append')
             ex.st.ghost['last_recent_arg'] = kw.get('recent', VBool(False))
-            return Msg.fresh('appended')
+            m = Msg.fresh('appended')
+            ex.st.ghost['stored'] = ex.st.ghost['stored'].append(ex.st.heap_get(m, 'uid'))
+            return m
+        if kind == 'remove' and e.func.attr == 'delete':
+            _effect(ex, frame, 'remove', base, 'delete')
+            ex.st.ghost['undone'] = args[0] if isinstance(args[0], VList) else ex.st.ghost['undone']
+            return VNone()
         if kind == 'update_selected':
             _effect(ex, frame, 'sync', base, 'update_selected')
             return args[0]
@@ -327,7 +342,9 @@ from pymap.exceptions import MailboxNotFound, MailboxConflict, MailboxReadOnly, 
 def _exit_policy(c):
     """C14: NO only before any effect.  C11/C06: nothing but ResponseError escapes."""
     if c.policy.prop == 'C14':
-        return {ResponseError: [('no_effect_before_the_refusal', lambda s: ~s.ghost('effects'))]}
+        return {ResponseError: [('no_effect_before_the_refusal', lambda s: ~s.ghost('effects'))],
+                StorageFailure: [('multi_append_is_all_or_nothing', lambda s: (s.ghost('undone') == s.ghost('stored')) |
+                                  (s.ghost('stored').len == 0))]}
     return {ResponseError: []}
 
 
@@ -336,13 +353,15 @@ def make(prop):
     pol = Policy(prop)
     P = dict(self=SESSION, selected=SEL)
     loop0 = {0: Loop(ghost=['effects', 'synced', 'last_recent_arg'])}
+    append_loop = {0: Loop(ghost=['effects', 'synced', 'last_recent_arg', 'stored'], invariant=[
+        ('uids_are_exactly_what_was_stored', lambda s: s.uids == s.ghost('stored'))])}
     specs = [
         ('update_flags', dict(P, sequence_set=SeqSetS, flag_set=SetS(Flag), mode=FL.FlagOpS), loop0),
         ('expunge_mailbox', dict(P, uid_set=SeqSetS), {}),
         ('copy_messages', dict(P, sequence_set=SeqSetS, mailbox=NameR), loop0),
         ('move_messages', dict(P, sequence_set=SeqSetS, mailbox=NameR), loop0),
         ('fetch_messages', dict(P, sequence_set=SeqSetS, set_seen=BOOL), loop0),
-        ('append_messages', dict(self=SESSION, name=NameR, messages=ListS(AppendR), selected=SEL), loop0),
+        ('append_messages', dict(self=SESSION, name=NameR, messages=ListS(AppendR), selected=SEL), append_loop),
         ('check_mailbox', dict(P, wait_on=NoneS(), housekeeping=BOOL), {}),
         ('select_mailbox', dict(self=SESSION, name=NameR, readonly=BOOL), {}),
         ('create_mailbox', dict(self=SESSION, name=NameR, selected=SEL), {}),
@@ -374,7 +393,7 @@ def make(prop):
         c.policy = pol
         c.attr_models = {('SelSet', 'any_selected'): _any_selected}
         c.raises = _exit_policy(c)
-        c.raises_only = (ResponseError,)
+        c.raises_only = (ResponseError, StorageFailure) if prop == 'C14' else (ResponseError,)
         out.append(c)
     return out
 
